@@ -447,10 +447,30 @@ COMMON_ASSUMPTIONS = [
 ]
 ASSUMPTIONS = {}
 RULES = {}
+SIM_COMMON = ["TCP (simnet: chunking, latency, stalls, cuts, resets, write errors, tampering filters)", "clock and timers (testing/synctest bubble)",
+              "kernel entropy (simrand, one stream per node keyed by goroutine id)", "goroutine scheduling at connection operations and harness steps (seeded tape)"]
 COMPONENTS = {
-    "C01": {"real": ["transports/obfs4 (client and server via the public factories)", "transports/obfs4/framing", "common/ntor", "common/probdist", "common/drbg", "common/csrand", "common/replayfilter", "internal/x25519ell2"],
-            "simulated": ["TCP (simnet)", "clock (synctest)", "kernel entropy (simrand)", "goroutine scheduling at conn operations"]},
+    "C01": {"real": ["transports/obfs4 client and server through the public factories", "transports/obfs4/framing", "common/ntor", "common/probdist", "common/drbg", "common/csrand", "common/replayfilter", "internal/x25519ell2"],
+            "simulated": SIM_COMMON + ["on the woven engine additionally statement-level preemption in obfs4.go, packet.go, handshake_ntor.go, weighted_dist.go, replay_filter.go"], "stub": []},
+    "C02": {"real": ["transports/obfs4 client and server", "common/ntor", "internal/x25519ell2"], "simulated": SIM_COMMON, "stub": ["impostor / on-path attacker: reference implementation sim/ref/obfs4ref"]},
+    "C03": {"real": ["transports/obfs4 server (WrapConn, closeAfterDelay)", "common/replayfilter"], "simulated": SIM_COMMON, "stub": ["probers and control client: sim/ref/obfs4ref"]},
+    "C04": {"real": ["transports/obfs4 server", "common/replayfilter"], "simulated": SIM_COMMON + ["woven engine: statement-level preemption and time-skips (stalled thread)"], "stub": ["clients: sim/ref/obfs4ref"]},
+    "C05": {"real": ["transports/obfs4 client or server (framing, packet, Read path)"], "simulated": SIM_COMMON, "stub": ["peer and attacker: sim/ref/obfs4ref"]},
+    "C06": {"real": ["transports/obfs4 client or server incl. bridge-line parsing"], "simulated": SIM_COMMON, "stub": ["the other role: independent reference sim/ref/obfs4ref (math/big Elligator 2, own ntor, SipHash OFB, frame and packet codec)"]},
+    "C09": {"real": ["transports/obfs4 client and server", "common/probdist", "common/drbg"], "simulated": SIM_COMMON + ["woven engine: statement-level preemption (Reset racing Sample)"], "stub": ["length table oracle: reference DRBG + math/rand Perm/Intn"]},
+    "C10": {"real": ["transports/obfs2, obfs3, obfs4 (both roles)", "transports/scramblesuit client", "transports/meeklite client with net/http", "common/socks5"], "simulated": SIM_COMMON + ["runtime select order (seeded seam)"], "stub": ["chaos peers, ScrambleSuit reference server, HTTP server"]},
+    "C11": {"real": ["common/replayfilter (woven: yields before every statement, sync -> simsync)"], "simulated": ["caller-supplied timestamps", "statement-level scheduling and mutex hand-off order"], "stub": ["reference set model; porcupine v1.3.0 as linearizability checker"]},
+    "C13": {"real": ["transports/obfs3 (both roles)", "common/uniformdh"], "simulated": SIM_COMMON + ["extreme private keys through the entropy seam"], "stub": ["reference obfs3/UniformDH peer sim/ref/obfsref"]},
+    "C14": {"real": ["transports/obfs2 (both roles)"], "simulated": SIM_COMMON, "stub": ["reference obfs2 peer sim/ref/obfsref"]},
+    "C15": {"real": ["transports/scramblesuit client incl. ticket store"], "simulated": SIM_COMMON + ["file system (simos) under the ticket store"], "stub": ["ScrambleSuit reference server sim/ref/obfsref/ss.go"]},
+    "C16": {"real": ["transports/meeklite client", "net/http client transport"], "simulated": SIM_COMMON + ["runtime select order (seeded seam)", "woven engine: statement-level preemption in meek.go"], "stub": ["HTTP/1.1 server (http.ReadRequest over simnet)"]},
+    "C17": {"real": ["common/socks5 (Handshake, Reply, argument parser)"], "simulated": SIM_COMMON, "stub": ["tor's SOCKS5 client and pt-spec argument encoder (harness)"]},
+    "C18": {"real": ["transports/obfs4 server factory and state file code", "transports/scramblesuit client factory and ticket store"], "simulated": ["file system (simos: kill, torn write, EIO, ENOSPC at every disk step)"] + SIM_COMMON, "stub": ["ScrambleSuit reference server; reference cert parser"]},
+    "C19": {"real": ["obfs4proxy copyLoop", "obfs4proxy termMonitor (wait, onHandlerStart, onHandlerFinish)"], "simulated": SIM_COMMON + ["runtime select order (seeded seam)"], "stub": ["far ends, signals, handlers; signal.Notify, stdin/ppid watchers and main() are not run"]},
 }
+
+
+
 
 
 NOT_APPLICABLE = {
